@@ -49,11 +49,11 @@ func parseFunctions(p *Prog) []*ssa.Function {
 			continue
 		}
 		res := fn.Signature.Results()
-		if res.Len() == 2 && typeStr(res.At(1).Type()) == "error" && !higherOrder(fn) && !multiplyInstantiated(p, fn) && grammarFns[fn.Name()] {
+		if res.Len() == 2 && typeStr(res.At(1).Type()) == "error" && !higherOrder(fn) && !multiplyInstantiated(p, fn) && grammarFns[fnName(fn)] {
 			out = append(out, fn)
 		}
 	}
-	sort.Slice(out, func(i, j int) bool { return out[i].Name() < out[j].Name() })
+	sort.Slice(out, func(i, j int) bool { return fnName(out[i]) < fnName(out[j]) })
 	return out
 }
 
@@ -116,7 +116,7 @@ func NewParseModel(p *Prog, fn *ssa.Function) *ParseModel {
 	for _, f := range parseFunctions(p) {
 		m.parseFns[f] = true
 	}
-	m.G = NewGraph("parser." + fn.Name())
+	m.G = NewGraph("parser." + fnName(fn))
 	return m
 }
 
@@ -344,21 +344,21 @@ func (m *ParseModel) Call(mc *Machine, st *State, call ssa.CallInstruction, call
 		var outs []Outcome
 		name := "n" + valName
 		strArgs := argStrings(args[1:])
-		eok := m.ev(in, "call", append([]string{callee.Name()}, strArgs...), "ok")
+		eok := m.ev(in, "call", append([]string{fnName(callee)}, strArgs...), "ok")
 		eok.KV["res"] = name
 		outs = append(outs, Outcome{Result: AV{K: KTuple, T: []AV{Sym(name), NilV}}, Apply: func(s *State) {
 			m.annotate(s, eok)
 			if s.Mon["cons"] != "P" {
-				s.Mon["cons"] = addSet(s.Mon["cons"], callee.Name())
+				s.Mon["cons"] = addSet(s.Mon["cons"], fnName(callee))
 			}
 			delete(s.Mon, "la")
 			delete(s.Mon, "notla")
 			delete(s.Mon, "atend")
-			s.Mon["prev"] = "call:" + callee.Name()
+			s.Mon["prev"] = "call:" + fnName(callee)
 			s.Facts["c:("+name+" == nil)"] = BoolV(false)
 			m.Emit(s, eok)
 		}})
-		eerr := m.ev(in, "call", append([]string{callee.Name()}, strArgs...), "err")
+		eerr := m.ev(in, "call", append([]string{fnName(callee)}, strArgs...), "err")
 		ename := "err" + valName
 		outs = append(outs, Outcome{Result: AV{K: KTuple, T: []AV{NilV, Sym(ename)}}, Apply: func(s *State) {
 			m.annotate(s, eerr)
@@ -369,7 +369,7 @@ func (m *ParseModel) Call(mc *Machine, st *State, call ssa.CallInstruction, call
 		return outs, true
 	}
 	if !m.p.InModule(callee) {
-		res := Sym(callee.Name() + "(" + strings.Join(argStrings(args), ",") + ")")
+		res := Sym(fnName(callee) + "(" + strings.Join(argStrings(args), ",") + ")")
 		if v, ok := call.(ssa.Value); ok {
 			if tup, ok := v.Type().(*types.Tuple); ok {
 				ts := make([]AV, tup.Len())
@@ -469,7 +469,7 @@ func (m *ParseModel) BackEdge(mc *Machine, st *State, from, to *ssa.BasicBlock) 
 	if strings.HasPrefix(to.Comment, "rangeindex.loop") || strings.HasPrefix(to.Comment, "rangeiter.loop") || boundedCountingLoop(to) {
 		kind = "range"
 	}
-	e := &Event{Op: "backedge", Args: []string{kind}, Pos: m.p.InstrPos(to.Instrs[0]), Site: to.Parent().Name() + ":b" + strconv.Itoa(to.Index), KV: map[string]string{"kind": kind}}
+	e := &Event{Op: "backedge", Args: []string{kind}, Pos: m.p.InstrPos(to.Instrs[0]), Site: fnName(to.Parent()) + ":b" + strconv.Itoa(to.Index), KV: map[string]string{"kind": kind}}
 	m.annotate(st, e)
 	m.Emit(st, e)
 }
